@@ -133,9 +133,15 @@ static void emit_grid(Rng& r, const std::string& tier) {
   int kstyle = ks < 6 ? r.range(0, 1) : ks < 8 ? 2 : 3;   // 3: dyadic with a repeated knot
   for (int i = 0; i < nd; i++) {
     std::vector<double> k = knots_inc(r, ord[i], extra[i], kstyle == 3 ? 1 : kstyle);
-    if (kstyle == 3 && (i == 0 || r.coin())) {
-      int mult = r.range(2, std::max(2, (int)ord[i]));
-      int at = r.range(0, (int)k.size() - mult);
+    // multiplicity at most `order`: the spline stays continuous (multiplicity order+1 makes a zero-width span in the
+    // pointwise evaluation's bsplvb, whose behaviour there belongs to C01/C05, not to the grid evaluation)
+    // and the repeated group lies strictly inside the fully supported range (indices order+1 .. naxes-1): a zero-width
+    // first/last supported interval makes the pointwise evaluation 0/0 at its end point (seen: order 4, knots[5]=knots[6]=
+    // knots[naxes], x = knots[naxes] -> NaN from ndsplineeval), which is not the grid evaluation's business either
+    int nax = (int)k.size() - (int)ord[i] - 1;
+    if (kstyle == 3 && ord[i] >= 2 && nax - (int)ord[i] - 1 >= 2 && (i == 0 || r.coin())) {
+      int mult = r.range(2, std::min((int)ord[i], nax - (int)ord[i] - 1));
+      int at = r.range((int)ord[i] + 1, nax - mult);
       for (int j = 1; j < mult; j++) k[at + j] = k[at];   // still non-decreasing: the later knots are larger
       stats["G_repeated_knot_dims"]++;
     }
